@@ -1,7 +1,9 @@
 #!/usr/bin/env python3
 """Confirm a seeded change (patch.diff + demo.py produced independently) and run the checks against it.
 
-usage: seedcheck.py <seed-dir> <seed-id> <property-id> [--checks C01,C06,...]
+usage: seedcheck.py <seed-dir> <seed-id> <property-id> [--checks C01,C06,...] [--isolated]
+  --isolated: step 2 runs in a private copy of /verif against a private patched worktree of /repo
+              (AMSHAN_REPO), so that several seeds can be checked in parallel and /repo is never touched
   1. scratch worktree of /repo: apply the patch, run the repository's tests (must pass), run demo.py
      (must fail), reverse the patch, run demo.py (must pass);
   2. apply the patch to /repo, run the registered quick checks, restore /repo;
@@ -20,6 +22,36 @@ VERIF = os.path.normpath(os.path.join(os.path.dirname(os.path.abspath(__file__))
 def sh(cmd, cwd=None, timeout=3600, env=None):
     p = subprocess.run(cmd, cwd=cwd, shell=True, stdout=subprocess.PIPE, stderr=subprocess.STDOUT, text=True, timeout=timeout, env=env)
     return p.returncode, p.stdout
+
+
+def run_in_place(patch, seed_id, todo, meta):
+    """run the checks against the patched /repo itself, then restore it"""
+    rc, out = sh("git -C /repo status --porcelain")
+    if out.strip():
+        print("REFUSING: /repo is not clean:", out)
+        return None
+    rc, out = sh(f"git -C /repo apply {patch}")
+    evdir = os.path.join(VERIF, "evidence")
+    evbak = f"/tmp/evidence_backup_{seed_id}"
+    shutil.rmtree(evbak, ignore_errors=True)
+    shutil.copytree(evdir, evbak)
+    try:
+        for c in todo:
+            t0 = time.time()
+            rc, out = sh(f"./check {c} --tier quick", cwd=VERIF, timeout=1800)
+            viol = [l for l in out.splitlines() if l.startswith("VIOLATION")]
+            meta["checks"][c] = {"exit": rc, "violation_lines": viol[:3], "wall_s": round(time.time() - t0, 1),
+                                 "summary": next((l for l in out.splitlines() if l.startswith("[" + c + "]")), "")[:300]}
+            print(c, "exit", rc, viol[:1])
+    finally:
+        sh("git -C /repo checkout -- .")
+        # evidence files must come from runs against the unchanged tree: restore them
+        shutil.rmtree(evdir, ignore_errors=True)
+        shutil.copytree(evbak, evdir)
+        shutil.rmtree(evbak, ignore_errors=True)
+        # restore Generated.lean to the clean tree's
+        sh("/venv/bin/python harness/extract.py", cwd=VERIF)
+    return ("patch applied to /repo, ./check <id> --tier quick for: " + ",".join(todo) + "; /repo restored with git checkout")
 
 
 def main():
@@ -51,41 +83,38 @@ def main():
         meta["confirmed"]["demo_output_with_patch"] = out1[-400:]
     finally:
         sh(f"git -C /repo worktree remove --force {wt}")
-    # run the checks against the patched /repo
-    rc, out = sh("git -C /repo status --porcelain")
-    if out.strip():
-        print("REFUSING: /repo is not clean:", out)
-        return 2
     man = json.load(open(os.path.join(VERIF, "MANIFEST.json")))
     allchecks = [c["property_id"] for c in man["checks"]]
     todo = checks or allchecks
-    rc, out = sh(f"git -C /repo apply {patch}")
-    evdir = os.path.join(VERIF, "evidence")
-    evbak = f"/tmp/evidence_backup_{seed_id}"
-    shutil.rmtree(evbak, ignore_errors=True)
-    shutil.copytree(evdir, evbak)
-    try:
-        for c in todo:
-            t0 = time.time()
-            rc, out = sh(f"./check {c} --tier quick", cwd=VERIF, timeout=1800)
-            viol = [l for l in out.splitlines() if l.startswith("VIOLATION")]
-            meta["checks"][c] = {"exit": rc, "violation_lines": viol[:3], "wall_s": round(time.time() - t0, 1),
-                                 "summary": next((l for l in out.splitlines() if l.startswith("[" + c + "]")), "")[:300]}
-            print(c, "exit", rc, viol[:1])
-    finally:
-        sh("git -C /repo checkout -- .")
-        # evidence files must come from runs against the unchanged tree: restore them
-        shutil.rmtree(evdir, ignore_errors=True)
-        shutil.copytree(evbak, evdir)
-        shutil.rmtree(evbak, ignore_errors=True)
-        # restore Generated.lean to the clean tree's
-        sh("/venv/bin/python harness/extract.py", cwd=VERIF)
+    if "--isolated" in sys.argv:
+        rwt, vcopy = f"/tmp/seedrun_repo_{seed_id}", f"/tmp/seedrun_verif_{seed_id}"
+        sh(f"git -C /repo worktree remove --force {rwt}")
+        shutil.rmtree(vcopy, ignore_errors=True)
+        sh(f"git -C /repo worktree add -q --detach {rwt} HEAD")
+        try:
+            sh(f"git apply {patch}", cwd=rwt)
+            shutil.copytree(VERIF, vcopy, symlinks=True, ignore=shutil.ignore_patterns(".git", "replays"))
+            env = dict(os.environ, AMSHAN_REPO=rwt)
+            for c in todo:
+                t0 = time.time()
+                rc, out = sh(f"./check {c} --tier quick", cwd=vcopy, timeout=1800, env=env)
+                viol = [l for l in out.splitlines() if l.startswith("VIOLATION")]
+                meta["checks"][c] = {"exit": rc, "violation_lines": viol[:3], "wall_s": round(time.time() - t0, 1),
+                                     "summary": next((l for l in out.splitlines() if l.startswith("[" + c + "]")), "")[:300]}
+                print(seed_id, c, "exit", rc, viol[:1], flush=True)
+        finally:
+            sh(f"git -C /repo worktree remove --force {rwt}")
+            shutil.rmtree(vcopy, ignore_errors=True)
+        how = (f"private patched worktree of /repo (AMSHAN_REPO) and a private copy of /verif, ./check <id> --tier quick for: " + ",".join(todo))
+    else:
+        how = run_in_place(patch, seed_id, todo, meta)
+        if how is None:
+            return 2
     meta["caught_by"] = [c for c, r in meta["checks"].items() if r["exit"] == 1]
     meta["caught_by_own_check"] = meta["checks"].get(pid, {}).get("exit") == 1
     notes = os.path.join(seed_dir, "NOTES.md")
     meta["needs_to_manifest"] = open(notes).read()[:1500] if os.path.exists(notes) else ""
-    meta["what_was_run"] = ("scratch worktree: git apply; pytest (existing suite); demo.py with and without the patch; then patch applied to /repo, "
-                            "./check <id> --tier quick for: " + ",".join(todo) + "; /repo restored with git checkout")
+    meta["what_was_run"] = "scratch worktree: git apply; pytest (existing suite); demo.py with and without the patch; then " + how
     dst = os.path.join(VERIF, "seeded", seed_id)
     os.makedirs(dst, exist_ok=True)
     shutil.copy(patch, os.path.join(dst, "patch.diff"))
